@@ -291,6 +291,9 @@ func ruleC05(c *Check) {
 	}
 	// end-of-block lowers a consumer's balance only together with issuing its batch in that block
 	c.newBatchRules("C05.7", map[string]bool{"credit-without-obligation": true, "skip-with-charge": true})
+	c.handlerAddressArgs("C05.8")
+	c.ownerRecordsStable("C05.6")
+	c.exhaustiveLookup("C05.6")
 }
 
 func effMentions(e *Eff, term string) bool {
